@@ -347,6 +347,23 @@ Fixpoint digits_fuel (f : nat) (n : Z) (acc : str) : str :=
   | O => acc
   | S f' => if n <? 10 then (48 + n) :: acc else digits_fuel f' (n / 10) ((48 + n mod 10) :: acc)
   end.
+(* 9.8 ToString of a primitive (numbers of the model are integers below 2^53: plain decimal text) *)
+Definition s_null : str := [110; 117; 108; 108].
+Definition s_true : str := [116; 114; 117; 101].
+Definition s_false : str := [102; 97; 108; 115; 101].
+Definition s_NaN : str := [78; 97; 78].
+Definition tostr (v : val) : option str :=
+  match v with
+  | WUndef => Some s_undefined
+  | WNull => Some s_null
+  | WBool true => Some s_true
+  | WBool false => Some s_false
+  | WNum n => Some (if n <? 0 then 45 :: digits_fuel 20 (- n) [] else digits_fuel 20 n [])
+  | WNaN => Some s_NaN
+  | WStr s => Some s
+  | _ => None
+  end.
+Definition is_str (v : val) : bool := match v with WStr _ => true | _ => false end.
 Definition key_of (v : val) : option str :=
   match v with
   | WStr s => Some s
@@ -738,7 +755,10 @@ Definition step (t : task) (s : state) : R :=
           | WBig => Decline
           | _ => type_error s1
           end)
-    | XLog e1 => bindv (self (TExpr c e1) s) (fun s1 v => okv (emit s1 v) WUndef)
+    | XLog e1 =>
+        (* the differential run records at most 4000 host calls: a longer log is outside what it can observe, and the
+           evaluation stops there (declined) instead of running a long program to its end *)
+        bindv (self (TExpr c e1) s) (fun s1 v => if 4000 <? Z.of_nat (length (out s1)) then Decline else okv (emit s1 v) WUndef)
     | XEval direct body =>
         (* 15.1.2.1 + 10.4.2 + 10.5 (eval code: declarations go to the variable environment, configurable) *)
         let c' := if direct then c else mkctx 0%nat 0%nat (WRef 0) in
@@ -776,7 +796,12 @@ Definition step (t : task) (s : state) : R :=
     | _ =>
       bindv (self (TPrim a) s) (fun s1 pa =>
         bindv (self (TPrim b) s1) (fun s2 pb =>
-          match binval op pa pb with Some v => okv s2 v | None => Decline end))
+          (* 11.6.1 steps 5-7: BOTH operands are made primitive first (no hint = hint Number: valueOf before toString),
+             and only then a string operand turns + into the concatenation of the two ToString forms *)
+          match op, is_str pa || is_str pb with
+          | PAdd, true => match tostr pa, tostr pb with Some x, Some y => okv s2 (WStr (x ++ y)) | _, _ => Decline end
+          | _, _ => match binval op pa pb with Some v => okv s2 v | None => Decline end
+          end))
     end
   | TArgs c l =>
     match l with
